@@ -33,6 +33,14 @@ Theorem C03_dp_truncation : forall fuel n base sep x s ex,
 Proof. exact dp_truncation_lemma. Qed.
 Print Assumptions C03_dp_truncation.
 
+(* ... and that rendering is total: no panic, no fuel exhaustion, whatever
+   fuel is passed (it is only consumed by the recurring-digit search) *)
+Theorem C03_dp_total : forall fuel n base sep x,
+  base_prefix_ok base = true -> wfr x = true ->
+  exists s ex, bigrat_format fuel (SDp n) base sep x = Ok (s, ex).
+Proof. exact dp_total_lemma. Qed.
+Print Assumptions C03_dp_total.
+
 (* n significant figures of an integer: the digits after the first n are
    shown as zeros (the number truncated to a multiple of b^(len-n)), flagged
    exact exactly when that changes nothing. *)
